@@ -10,6 +10,17 @@ INV = {
 }
 ASPECT = {"C01": "c01", "C02": "c02", "C05": "c05", "C11": "c11"}
 
+def refs_of(e):
+    """ids an entry (plain neutral form) mentions, in traversal order"""
+    out = [p["ty"][0] for p in e["params"] if p["ty"]]
+    d = e["def"]; t = d["tag"]
+    if t == "composite": out += [f["ty"] for f in d["fields"]]
+    elif t == "variant": out += [f["ty"] for v in d["variants"] for f in v["fields"]]
+    elif t in ("sequence", "array", "compact"): out.append(d["ty"])
+    elif t == "tuple": out += d["tys"]
+    elif t == "bitsequence": out += [d["store"], d["order"]]
+    return out
+
 def write_cfg(wd, name, body):
     p = os.path.join(wd, name)
     open(p, "w").write(body)
